@@ -45,8 +45,13 @@ def strategy(draw):
     sd = dict(level=draw(gen.log_floats(0.05, 1.5)), ripple=draw(gen.floats(0, 0.8)), k=draw(gen.floats(1, 6)), phase=draw(gen.floats(0, 6.28)))
     band = sum(f0t >= e for e in EDGES)
     fstd = f0t * TABLE[band][0] * draw(gen.log_floats(0.1, 10.0))
-    kind = draw(st.sampled_from(["none", "none", "low", "high", "both", "both", "exclude-peak", "narrow"]))
+    kind = draw(st.sampled_from(["none", "none", "low", "high", "both", "both", "exclude-peak", "narrow", "hug"]))
     lo = hi = None
+    if kind == "hug":
+        # limits one to three grid samples away from the peak: whether an end sample belongs to the range decides the verdicts
+        q = 800.0 ** (1.0 / npts)
+        lo = f0t / q ** draw(st.sampled_from([1.2, 2.0, 3.0])) if draw(st.booleans()) else None
+        hi = f0t * q ** draw(st.sampled_from([1.2, 2.0, 3.0])) if (lo is None or draw(st.booleans())) else None
     if kind == "narrow":
         # a tight range around the peak: the +- one standard deviation curves may then have no interior maximum at all
         lo = f0t * draw(gen.floats(0.8, 0.97))
